@@ -20,6 +20,12 @@ Correspondence, three parts (impl/impl_c11.py; judged inside Coq by model/ImgIte
  (iii) URL-sourced images served by a local http.server on 127.0.0.1 (200 image, 404,
        non-image body, bad constructor argument): files in the library's temp dir before /
        while open / after close / after failed construction.
+ (iv)  round 7, CONCURRENT life-cycle calls: iterator histories in which close() arrives WHILE a next() of
+       the same iterator is executing (issued from inside the render re-entrantly, from a second thread
+       behind Event gates, from a real signal handler), followed by any further history and the normal
+       clean-up; model/ImgIterReent.v (close() as an instruction program, refused by the executing
+       generator) and its specification (nothing changes; the erased sequential history), judged by
+       model/ImgIterReentTie.v; Image.open / Image.close pairing per operation and /proc/self/fd at the end.
 Parts (ii) and (iii) observe Pillow, the OS and CPython's reference counting: they are
 runtime validation, not consequences of a theorem."""
 from __future__ import annotations
@@ -29,10 +35,11 @@ import json
 import core
 
 LEVEL = "proof"
-EXTRA_TARGETS = ["model/ImgIterTie.vo"]
+EXTRA_TARGETS = ["model/ImgIterTie.vo", "model/ImgIterReentTie.vo"]
 
 HEADER = ("From Coq Require Import List ZArith Bool.\nImport ListNotations.\n"
-          "From TI Require Import model.ImgIter model.ImgIterSpec model.ImgIterEnv model.ImgIterTie.\nLocal Open Scope nat_scope.\n")
+          "From TI Require Import model.ImgIter model.ImgIterSpec model.ImgIterEnv model.ImgIterTie.\n"
+          "From TI Require Import model.ImgIterReent model.ImgIterReentTie.\nLocal Open Scope nat_scope.\n")
 Z = core.z
 
 
@@ -351,6 +358,86 @@ FAULT_CORPUS = [
      "take": 0, "end": "drop", "max_k": None},
 ]
 
+
+# ------------------------------------------------ round 7: close() while a next() is executing
+
+HOWS = ["reent", "thread", "signal"]
+
+
+def gen_reent_case(rng):
+    style = rng.choice(["block", "block", "kitty", "iterm2"])
+    fmt = rng.choice(["GIF", "GIF", "WEBP"])
+    n = rng.randint(2, 5)
+    src = {"kind": "new", "seed": rng.randrange(1 << 30), "w": rng.randint(2, 16), "h": rng.randint(2, 16),
+           "mode": "P" if fmt == "GIF" else rng.choice(["RGB", "RGBA"]), "frames": n, "fmt": fmt}
+    repeat = rng.choice([1, 2, 2, 3, -1])
+    cached = rng.choice([True, True, False, n, 100])
+    nsz = rng.choice([1, 1, 2])
+    sizes = [[rng.randint(1, 6), rng.randint(1, 3)] for _ in range(nsz)]
+    cur = [0]
+
+    def cd():
+        return ["nextcd", rng.choice([1, 1, 1, 2, 3]), rng.choice(HOWS)]
+
+    ops = [["next"]] * rng.choice([0, 0, 1, 2, n, n + 1])
+    for _ in range(rng.randint(3, 10)):
+        r = rng.random()
+        if r < 0.38:
+            ops.append(cd())
+        elif r < 0.66:
+            ops.append(["next"])
+        elif r < 0.8:
+            ops += seek_run(rng, n)
+        elif r < 0.88 and nsz > 1:  # the cached loop re-renders after a size change
+            cur[0] = 1 - cur[0]
+            ops.append(["size", cur[0]])
+        elif r < 0.94:
+            ops.append(["close"])
+        else:
+            ops.append(["drop"])
+    end = rng.random()
+    if end < 0.4:
+        ops.append(["close"])
+    elif end < 0.6:
+        ops.append(["drop"])
+    elif end < 0.8 and repeat > 0:  # exhaustion (StopIteration handler of __next__)
+        ops += [["next"] if rng.random() < 0.7 else cd() for _ in range(min(n * repeat + 1, 16))]
+    # else: abandoned (the driver deletes it at the end)
+    ops += rng.choice([[], [], [["next"]], [cd(), ["close"]], [["close"], ["seek", 0]]])
+    if ["drop"] in ops:
+        k = ops.index(["drop"])
+        ops = ops[:k + 1] + [o for o in ops[k + 1:] if o[0] == "size"]
+    c = {"part": "reent", "style": style, "src": src, "source": rng.choice(["file", "file", "file", "pil", "pil_file"]),
+         "spec": rng.choice(SPECS[style]), "repeat": repeat, "cached": cached, "sizes": sizes, "ops": ops,
+         "cell": [rng.randint(2, 8), rng.randint(4, 12)], "pos0": rng.choice([0, 0, 1]),
+         "term": rng.choice(["wezterm", "iterm2", "konsole"])}
+    if rng.random() < 0.1:
+        c["fail_frame"] = rng.randrange(n)
+    return c
+
+
+_RSRC = {"kind": "new", "seed": 21, "w": 8, "h": 6, "mode": "P", "frames": 3, "fmt": "GIF"}
+REENT_CORPUS = [
+    # a refused close in the middle of a frame (each delivery), then the normal clean-up: close / drop / exhaustion
+    {"part": "reent", "style": "block", "src": _RSRC, "source": "file", "spec": "1.1", "repeat": 1, "cached": False,
+     "sizes": [[4, 2]], "ops": [["next"], ["nextcd", 1, "reent"], ["close"], ["close"], ["next"]]},
+    {"part": "reent", "style": "block", "src": _RSRC, "source": "file", "spec": "1.1", "repeat": -1, "cached": True,
+     "sizes": [[4, 2]], "ops": [["next"], ["nextcd", 1, "thread"], ["next"], ["nextcd", 2, "thread"], ["drop"]]},
+    {"part": "reent", "style": "kitty", "src": _RSRC, "source": "file", "spec": "1.1+L", "repeat": 2, "cached": False,
+     "sizes": [[3, 2]], "cell": [4, 6], "ops": [["nextcd", 1, "signal"], ["next"], ["seek", 0], ["nextcd", 3, "signal"], ["close"]]},
+    # refused closes, then exhaustion: the StopIteration handler releases the image; in the cached loop a
+    # next() renders only after a size change
+    {"part": "reent", "style": "block", "src": _RSRC, "source": "file", "spec": "1.1", "repeat": 2, "cached": True,
+     "sizes": [[4, 2], [5, 3]],
+     "ops": [["nextcd", 1, "reent"], ["next"], ["nextcd", 1, "thread"], ["nextcd", 1, "signal"], ["size", 1],
+             ["nextcd", 2, "reent"], ["next"], ["next"], ["nextcd", 1, "reent"], ["close"]]},
+    # a caller-supplied PIL image: never closed, refused all the same; a failing frame after a refusal
+    {"part": "reent", "style": "iterm2", "src": _RSRC, "source": "pil_file", "spec": "1.1+W", "repeat": 1, "cached": False,
+     "sizes": [[3, 2]], "cell": [4, 6], "ops": [["nextcd", 1, "thread"], ["nextcd", 1, "reent"], ["next"], ["next"]]},
+    {"part": "reent", "style": "block", "src": _RSRC, "source": "file", "spec": "1.1", "repeat": -1, "cached": False,
+     "sizes": [[4, 2]], "fail_frame": 1, "ops": [["nextcd", 2, "signal"], ["nextcd", 1, "reent"], ["next"], ["close"]]},
+]
+
 URL_KWARGS = {"{}": True, '{"width": 0}': False, '{"height": -3}': False, '{"width": "x"}': False,
               '{"width": 3, "height": 2}': True, '{"height": 2}': True}
 URL_KINDS = {"img.png": 0, "anim.gif": 0, "missing.png": 1, "text.txt": 2, "empty.png": 2}
@@ -425,6 +512,33 @@ def iter_term(c, r):
                 zll([row[:5] for row in r["rows"]]), zl(r["direct"]), b(keep)))
 
 
+def rop_term(o):
+    if o[0] == "nextcd":
+        return f"RNextCD {o[1]}"
+    return "RPlain " + ({"next": "Next", "close": "Close", "drop": "Drop"}.get(o[0]) or (
+        f"(Seek {Z(o[1])})" if o[0] == "seek" else f"(SetImageSize {o[1]})"))
+
+
+def reent_term(c, r):
+    cached = c["cached"]
+    carg = f"(inl {b(cached)})" if isinstance(cached, bool) else f"(inr {Z(cached)})"
+    n = r["N"]
+    exhausted = any(row[0] == 1 for row in r["rows"]) and not any(o[0] in ("close", "drop") for o in c["ops"]) \
+        and not any(row[0] == 2 for row in r["rows"])
+    pil_reset_ok = True
+    if c["source"] != "file" and exhausted:
+        pil_reset_ok = r["pil_tell"] == 0
+    keep = (r["size_kept"] and r["pil_alive"] and r["fd_delta"] == 0 and pil_reset_ok
+            and all(x[2] == 0 for x in r["cd"]))
+    # RNextCD carries the number of concurrent calls actually made during that next()
+    ops = [["nextcd", x[0]] if o[0] == "nextcd" else o for o, x in zip(c["ops"], r["cd"])]
+    obs = [row[:5] + [x[1]] for row, x in zip(r["rows"], r["cd"])]
+    return ("{| rc_n := %d; rc_repeat := %s; rc_cached := %s; rc_cache_on := %s; rc_pos0 := %s; rc_table := %s; "
+            "rc_hashes := %s; rc_ops := %s; rc_file := %s; rc_obs := %s; rc_keep := %s |}" % (
+                n, Z(c["repeat"]), carg, b(r["cache_on"]), Z((c.get("pos0") or 0) % n), zll(r["table"]),
+                zl(r["hashes"]), core.coq_list(ops, rop_term), b(c["source"] == "file"), zll(obs), b(keep)))
+
+
 def fault_expect(c):
     return c["action"] in ("format", "str", "draw", "draw_anim", "draw_bad", "n_frames")
 
@@ -475,7 +589,8 @@ def url_term(c, r):
 
 # ------------------------------------------------------------------ evaluate
 
-PARTS = {"iter": ("itcase", "bad check_iter cases", iter_term), "fault": ("fcase", "bad check_fault cases", fault_term),
+PARTS = {"iter": ("itcase", "bad check_iter cases", iter_term), "reent": ("rcase", "bad check_reent cases", reent_term),
+         "fault": ("fcase", "bad check_fault cases", fault_term),
          "url": ("ucase", "bad check_url cases", url_term)}
 
 
@@ -505,6 +620,22 @@ def evaluate(cases, tag="c11"):
 
 def simpler(c):
     out = []
+    if c["part"] == "reent":
+        ops = c["ops"]
+        for k in range(len(ops) - 1, -1, -1):
+            out.append({**c, "ops": ops[:k] + ops[k + 1:]})
+        for k, o in enumerate(ops):
+            if o[0] == "nextcd" and (o[1] != 1 or o[2] != "reent"):
+                out.append({**c, "ops": ops[:k] + [["nextcd", 1, o[2]]] + ops[k + 1:]} if o[1] != 1 else
+                           {**c, "ops": ops[:k] + [["nextcd", 1, "reent"]] + ops[k + 1:]})
+        if len(c["sizes"]) > 1 and not any(o[0] == "size" for o in ops):
+            out.append({**c, "sizes": c["sizes"][:1]})
+        for k, v in (("pos0", 0), ("cached", False), ("source", "file"), ("fail_frame", None)):
+            if c.get(k) not in (v, None):
+                out.append({**c, k: v})
+        if c["repeat"] not in (1, -1):
+            out.append({**c, "repeat": 1})
+        return [x for x in out if x["ops"]][:40]
     if c["part"] == "iter":
         ops = c["ops"]
         for k in range(len(ops) - 1, -1, -1):
@@ -561,10 +692,10 @@ def src_str(s):
 
 
 def describe(c):
-    if c["part"] == "iter":
-        ops = " ".join(o[0] if len(o) == 1 else f"{o[0]}({o[1]})" for o in c["ops"])
+    if c["part"] in ("iter", "reent"):
+        ops = " ".join(o[0] if len(o) == 1 else f"{o[0]}({','.join(str(x) for x in o[1:])})" for o in c["ops"])
         envs = "".join(f" env{j}={e}" for j, e in enumerate(c.get("envs") or []))
-        return (f"iter {c['style']} src={src_str(c['src'])} via {c['source']} spec={c['spec']!r} repeat={c['repeat']} "
+        return (f"{c['part']} {c['style']} src={src_str(c['src'])} via {c['source']} spec={c['spec']!r} repeat={c['repeat']} "
                 f"cached={c['cached']} sizes={c['sizes']}{envs} pos0={c.get('pos0', 0)} fail_frame={c.get('fail_frame')} "
                 f"ops=[{ops}]")
     if c["part"] == "fault":
@@ -581,8 +712,9 @@ def signature(c):
 
 
 def explain(c, r):
-    if c["part"] == "iter":
+    if c["part"] in ("iter", "reent"):
         return {"N": r.get("N"), "table": r.get("table"),
+                "concurrent close() per op (made, refused by ValueError, ended otherwise)": r.get("cd", [])[:30],
                 "rows(code,frame,tell,loop_no,unclosed_images)": [x[:5] for x in r.get("rows", [])][:30],
                 "direct(frame formatted directly right after each yield)": r.get("direct", [])[:30],
                 "hashes": r.get("hashes"),
@@ -607,6 +739,7 @@ def run(ctx):
     else:
         ni, nf, nu = (45, 16, 6) if ctx.quick else (1500, 300, 60)
         cases = list(ITER_CORPUS) + [gen_iter_case(rng, long=(i % 4 == 0)) for i in range(ni)]
+        cases += list(REENT_CORPUS) + [gen_reent_case(rng) for _ in range(14 if ctx.quick else 400)]
         cases += list(FAULT_CORPUS) + [gen_fault_case(rng, ctx.quick) for _ in range(nf)]
         cases += list(URL_CORPUS) + [gen_url_case(rng) for _ in range(nu)]
     codes, errors, impl = evaluate(cases)
@@ -615,7 +748,10 @@ def run(ctx):
             "fault_images_opened": 0, "fault_images_left_unclosed": 0, "iter_images_opened": 0, "iter_repeat": {},
             "iter_cached_arg": {}, "iter_len": {}, "url_ops": {}, "url_errors": {},
             "iter_seek_run_len(acknowledged seeks between two next)": {}, "iter_env_cases": 0,
-            "iter_yields_after_env_change_with_cache": 0, "iter_yields_whose_direct_frame_changed_with_env": 0}
+            "iter_yields_after_env_change_with_cache": 0, "iter_yields_whose_direct_frame_changed_with_env": 0,
+            "reent_ops": {}, "reent_delivery(calls made)": {}, "reent_close_calls_made": 0,
+            "reent_close_calls_refused": 0, "reent_next_with_refusal_outcome": {},
+            "reent_cases_released_after_a_refusal(file source)": 0}
 
     def inc(d, k, v=1):
         d[str(k)] = d.get(str(k), 0) + v
@@ -660,6 +796,22 @@ def run(ctx):
             if sum(1 for row in r["rows"] if row[0] == 0) >= 2 and (kinds & {"seek", "size", "env", "close", "drop"} or
                                                                    any(row[0] == 1 for row in r["rows"])):
                 distinct.add(signature(c))
+        elif c["part"] == "reent":
+            evaluations += 1
+            refused_seen = False
+            for o, row, x in zip(c["ops"], r["rows"], r["cd"]):
+                inc(hist["reent_ops"], o[0])
+                if o[0] == "nextcd":
+                    inc(hist["reent_delivery(calls made)"], o[2], x[0])
+                    hist["reent_close_calls_made"] += x[0]
+                    hist["reent_close_calls_refused"] += x[1]
+                    if x[1]:
+                        refused_seen = True
+                        inc(hist["reent_next_with_refusal_outcome"], OUT_NAMES.get(row[0], row[0]))
+            if refused_seen:
+                distinct.add(signature(c))
+                if c["source"] == "file" and r["rows"] and r["rows"][-1][4] == 0:
+                    hist["reent_cases_released_after_a_refusal(file source)"] += 1
         elif c["part"] == "fault":
             inc(hist["fault_action"], c["action"])
             evaluations += 1 + len(r["runs"])
@@ -673,7 +825,7 @@ def run(ctx):
                     distinct.add(signature(c) + f"/k{x['k']}")
             if c["action"] == "draw_bad" and r["base"]["raised"]:
                 distinct.add(signature(c))
-        else:
+        elif c["part"] == "url":
             evaluations += 1
             for o, row in zip(c["ops"], r["rows"]):
                 inc(hist["url_ops"], o[0])
@@ -704,6 +856,7 @@ def run(ctx):
             mismatches.append({"case": c, "code": code, "observed": explain(c, r)})
     return {
         "corr_name": "ImgIter.step (two-phase generator) == ImageIterator histories; ImgIterSpec (direct formatting) == the same; "
+                     "ImgIterReent.rstep (close() arriving while a next() executes) == the same with concurrent close() calls; "
                      "fault enumeration with Image.open / Image.close pairing + fd / temp-file observation",
         "evaluations": evaluations,
         "distinct_nontrivial": len(distinct),
@@ -719,7 +872,13 @@ def run(ctx):
                 "operation: outcome, frame identity against direct formatting under the configuration in force (table per "
                 "(size setting, environment) visited) AND against the direct formatting of that frame right after the yield, "
                 "image.tell(), loop_no, images opened for the iterator and not yet closed.  Non-trivial: >= 2 frames yielded and "
-                "a seek / size change / environment change / close / drop or an exhaustion.  fault: each scenario (format / str / draw / animated draw / iteration with early close, exhaustion "
+                "a seek / size change / environment change / close / drop or an exhaustion.  reent (round 7): corpus + random "
+                "histories over synthetic 2-5 frame GIF/WEBP sources (file mostly; PIL-from-file, PIL-from-bytes) of next / seek runs "
+                "/ size change / close / drop and nextcd(m, how): a next() during whose first render m = 1-3 calls of close() arrive "
+                "re-entrantly from the render, from a second thread behind Event gates, or from a SIGUSR1 handler raised inside the "
+                "render; ended by close / drop / exhaustion / abandonment and a few operations after the end; per operation the iter "
+                "row (outcome, frame, tell, loop_no, images opened and not yet closed) and the number of concurrent calls refused "
+                "by ValueError('generator already executing'); at the end fd balance; non-trivial: at least one refused call.  fault: each scenario (format / str / draw / animated draw / iteration with early close, exhaustion "
                 "or drop incl. before the first frame / n_frames / draw with a rejected repeat, cached or style argument) x every "
                 "index k of the library's PIL convert/resize/alpha_composite/save/tobytes calls (first 8 in the quick tier for "
                 "generated scenarios, all for the corpus); one evaluation per run; non-trivial: the fault was reached or the "
@@ -727,6 +886,7 @@ def run(ctx):
                 "close / with / del histories over 3 slots.",
         "samples": [describe(c) for c in (
             [c for c in cases if c["part"] == "iter"][:1] + [c for c in cases if c["part"] == "iter"][len(ITER_CORPUS):][:1]
+            + [c for c in cases if c["part"] == "reent"][:1] + [c for c in cases if c["part"] == "reent"][len(REENT_CORPUS):][:1]
             + [c for c in cases if c["part"] == "fault"][:1] + [c for c in cases if c["part"] == "fault"][len(FAULT_CORPUS):][:2]
             + [c for c in cases if c["part"] == "url"][-1:])],
         "histogram": hist,
@@ -751,6 +911,11 @@ def run(ctx):
             "hand-written skeletons of _get_render_data / _render_image (model/ImgSkel.v): every call other than _close_image has no "
             "effect on the image passed in; frame=True only for animated images (ImageIterator refuses others)",
             "the code modelled is /repo + pending_fixes/C11_close_unrendered_images.diff",
+            "concurrent close(): a call that arrives while the frame generator is executing is answered by CPython's "
+            "generator.close() with ValueError('generator already executing') before anything else happens (model: close_code); "
+            "the driver delivers such calls at the first _render_image of the next() in progress (same thread re-entrantly, a "
+            "second thread while the rendering thread waits, a signal handler); a call landing between two bytecodes of close() "
+            "ITSELF in another thread (true preemption inside close) is not modelled",
         ],
         "trusted": ["impl_c11.py (wrappers around PIL.Image.open, Image.close and five Image methods, /proc/self/fd listing, local "
                     "http.server)", "harness/tx/tx_skel.py (call table of the translated skeletons)"],
